@@ -33,6 +33,7 @@ import json
 import os
 import re
 import subprocess
+import time
 
 import lib
 
@@ -584,15 +585,35 @@ def _replays(ctx, go, model, fsmodel):
     mismatches = []
     spec_fail = []
     steps = 0
+    shard_timeout = int(os.environ.get("C09_SHARD_TIMEOUT", ctx.pick(300, 3000)))
+    deadline = time.time() + shard_timeout
+    timed_out = []
     for items, si, p in procs:
+        killed = False
         try:
-            _, err = p.communicate(timeout=ctx.pick(600, 3000))
+            _, err = p.communicate(timeout=max(1.0, deadline - time.time()))
         except subprocess.TimeoutExpired:
+            # a replay that does not come to an end is a RESULT about the implementation (a hang or a step that never
+            # arrives; the driver's own watchdogs should have fired long before): the driver flushes per line, so the
+            # scenarios it completed are judged, and the one it was stuck in is reported with the scenario as replay
             p.kill()
-            ctx.fatal("gated replay timed out")
-        if p.returncode != 0:
+            _, err = p.communicate()
+            killed = True
+        if p.returncode != 0 and not killed:
             ctx.fatal("gated replay failed rc=%d %s" % (p.returncode, err.decode("utf-8", "replace")[-400:]))
         ib = _blocks(si, "scenario ")
+        if killed:
+            done = [b for b in ib if b and b[-1].startswith("tree ")]
+            stuck_i = len(done)
+            if stuck_i < len(items):
+                s_, m_, _ = items[stuck_i]
+                part = ib[stuck_i] if stuck_i < len(ib) else []
+                why = ("scenario %s did not finish within %d s (the replay of its shard was stopped; the implementation "
+                       "hangs, or never reaches a step, in a way the driver's own watchdogs did not turn into an answer); "
+                       "last answer: %s" % (s_[0].split()[1], shard_timeout, part[-1].strip() if part else "none"))
+                spec_fail.append((s_, _strip_notes(m_), part, why))
+            timed_out.append(dict(shard=os.path.basename(si), completed=len(done), not_judged=max(0, len(items) - len(done) - 1)))
+            items, ib = items[:len(done)], done
         if len(ib) != len(items):
             ctx.fatal("replay produced %d blocks for %d scenarios" % (len(ib), len(items)))
         for (s, m, _), im in zip(items, ib):
@@ -646,6 +667,7 @@ def _replays(ctx, go, model, fsmodel):
         ctx.violation("impl-vs-model", "the lock-granular MODEL contradicts the expectation of a generated scenario "
                       "(the model or the generator is wrong): " + why, lines=[x.rstrip("\n") for x in s], concrete=False)
     ctx.extra["replay"]["expectation_failures"] = dict(impl=len(spec_fail), model=len(model_vs_spec))
+    ctx.extra["replay"]["shards_stopped_at_timeout"] = timed_out
     ctx.extra["replay"]["write_gap_family"] = dict(sorted(wg.stats.items()))
     for k in ("impl:hang", "impl:panic", "impl:no_serial_order", "model:no_serial_order"):
         ctx.extra["replay"]["write_gap_family"].setdefault(k, 0)
@@ -663,8 +685,10 @@ def _replays(ctx, go, model, fsmodel):
         so, sm, si = ctx.path("one.ops"), ctx.path("one.model"), ctx.path("one.impl")
         open(so, "w").write("".join(s))
         ctx.run_lines(model, [], so, sm)
-        ctx.run([go, "replay", so, sm], stdout=si, timeout=900)
+        rc1, _ = ctx.run([go, "replay", so, sm], stdout=si, timeout=300)
         mm2, im2 = _strip_notes(open(sm).readlines()), open(si).readlines()
+        if rc1 == 124:
+            im2.append("replay alone did not finish within 300 s hang\n")
         if mm2 != im2:
             confirmed.append((s, mm2, im2))
         else:
@@ -906,8 +930,11 @@ def _run(ctx, go):
     ]
     ctx.trusted_base += [
         "gate scheduler of harness/cmd/memfsconc (goroutine identification by runtime.Stack, 120 ms confirmation of 'blocked' "
-        "only where the model says blocked; where it says progress: 20 s wait - 1.5 s once the process has reported a "
-        "hang -, then `hang` only if a stop-the-world stack snapshot shows the goroutine parked on a sync lock, twice)",
+        "only where the model says blocked; where it says progress: `stalled` at once when the driver itself has not "
+        "resumed the thread and no event is queued; else 20 s wait - 1.5 s once any long wait of the process has expired "
+        "-, then `hang` if a stop-the-world stack snapshot shows the goroutine parked on a sync lock, twice, or if it "
+        "neither arrives nor parks within 120 s - 5 s after the first expiry; a replay shard that exceeds its time "
+        "budget is stopped, its completed scenarios are judged and the one it was stuck in is a violation)",
         "write-gap family: the translation of a thread's operations into lines of the sequential model's driver m_fs "
         "(checks/c09.py _units: Writer+Writes+Close = one `writer` line) and the comparison of trees / sorted listings",
         "history monitor rules R0-R5 (Driver/MemFSConc.lean) as the executable form of 'final tree = union of successful "
